@@ -596,6 +596,22 @@ impl Mon {
             self.c03_liquidate(w, v, info);
             return;
         }
+        if kind == Kind::CloseBalance {
+            // closing a position moves no tokens: what it may take off the books in the user's favour
+            // is the sub-0.0001-unit debt dust of a closure, nothing more
+            if let (Some((bk, _, Some(post))), Some((ak, ap, aq))) = (info.banks.first(), info.accts.first()) {
+                let (pa, pl, _) = pos_bits(ap, bk);
+                let (qa, ql, _) = pos_bits(aq, bk);
+                let q = BankQ::of(post);
+                let net_credit = bits_to_rat(qa - pa) * &q.asv - bits_to_rat(ql - pl) * &q.lsv;
+                self.r.eval();
+                self.r.count("C03.balance_closures_judged");
+                if net_credit > rq(1, 10_000) + (&q.asv + &q.lsv + ri(2)) * ri(8) * ulp() {
+                    self.r.violate("C03", "C03/CloseBalance/debt-taken-off-the-books-without-payment", format!("account {} bank {}: position value changed by {} in the user's favour, no tokens moved", ak, bk, show(&net_credit)));
+                }
+            }
+            return;
+        }
         if !matches!(kind, Kind::Deposit | Kind::Withdraw | Kind::Borrow | Kind::Repay) {
             return;
         }
